@@ -79,6 +79,9 @@ func checkC12(c *checkCtx) int {
 	// is done by several callers at once
 	beforeFirst := agg.Plans
 	c.runSchedCold("C12", "plain", engine.FirstUseBase, firstUse, chunk, timeout, agg)
+	// ... and on the race build: an unsynchronised first write is a race report
+	// only in the process where it is the first
+	c.runSchedCold("C12", "race", engine.FirstUseBase+firstUse, firstUse/2, chunk, timeout, agg)
 	firstUsePlans := agg.Plans - beforeFirst
 	wall := time.Since(t1).Seconds()
 	cov := schedCoverage(agg, wall, true)
